@@ -257,10 +257,23 @@ def _df_from_dict(eng, args, kwargs):
     return DFrame(cols, n0 if n0 is not None else 0)
 
 
+def _to_numeric(eng, args, kwargs):
+    """pd.to_numeric(numeric column[, downcast=...]): the same values; `downcast` picks the smallest dtype that HOLDS every value (pandas
+    keeps the dtype when one does not fit), so no value changes (floats are reals here); the resulting width is not recorded"""
+    v = args[0] if args else None
+    if len(args) != 1 or set(kwargs) - {"downcast", "errors"} or not isinstance(v, SArr) or v.kind not in ("int", "real"):
+        raise Unsupported("pd.to_numeric form")
+    if kwargs.get("errors", "raise") != "raise" or kwargs.get("downcast") not in (None, "integer", "signed", "unsigned", "float"):
+        raise Unsupported("pd.to_numeric options")
+    eng.assumptions.add("pandas-model: pd.to_numeric(numeric column, downcast=...) keeps every value (downcast only to a dtype that holds them all); width not recorded")
+    return type(v)(v.arr, v.n, v.kind, name=v.name)
+
+
 def _install_pandas():
     import pandas as pd
 
     M.EXTRA_MODELS[pd.DataFrame.from_dict] = _df_from_dict
+    M.EXTRA_MODELS[pd.to_numeric] = _to_numeric
 
 
 _install_pandas()
